@@ -50,6 +50,18 @@ impl rpc::Handler<rpc::push_validator_addrs::Rpc> for &PushServer<'_> {
     }
 }
 
+/// What the `push_validator_addrs` RPC does with a received request: the handler above, entered
+/// without a connection (the harness stubs the address gossip itself).
+#[cfg(era_consensus_verif)]
+pub(crate) async fn verif_push_validator_addrs(
+    net: &Network,
+    ctx: &ctx::Ctx,
+    req: rpc::push_validator_addrs::Req,
+) -> anyhow::Result<()> {
+    let server = PushServer::new(net);
+    rpc::Handler::<rpc::push_validator_addrs::Rpc>::handle(&&server, ctx, req).await
+}
+
 #[async_trait]
 impl rpc::Handler<rpc::push_tx::Rpc> for &PushServer<'_> {
     fn max_req_size(&self) -> usize {
